@@ -4,5 +4,5 @@ Require Import Base PathOracle PathBook.
 Require Import Extraction ExtrOcamlBasic.
 Extraction Blacklist List String Int.
 Extraction "../ocaml/extracted/c07_flexpath.ml"
-  wn seg_closer_than seg_band_closer poly_closer must_cover must_not_cover check_point check_points
+  wn seg_closer_than seg_band_closer seg_near poly_closer must_cover must_not_cover classify verdict check_point
   finit construct f_spine f_elems counts_okb N.leb.
